@@ -108,6 +108,20 @@ CLAIMED["C12"] = (
     "are executed; TLC compares rows and statistics of every run with the cache-disabled reference.",
     "5/C12", "")
 
+CLAIMED["C08"] = (
+    "TLA+ transcription of the rule matcher (RuleMatcher.tla) checked exhaustively by TLC on an abstract database; "
+    "real matcher / imputer / constraint calls validated by TLC against the model evaluated on the shipped databases",
+    "TLC checks exactness in every element and in charge, positive multiplicities and bounded depth for every "
+    "imbalance vector in the bound (the exit test without charge must fail). The real SyntheticRuleMatcher is then "
+    "called on all small vectors over the database's elements and charges -2..2 and on random larger ones, for both "
+    "shipped databases; TLC recomputes the solution set from the recorded compositions of the loaded database, and "
+    "checks every returned completion with the ORACLE compositions of the database SMILES (exact on all keys incl. "
+    "Q, positive ratios, database members, no duplicates); every database record's composition is compared with the "
+    "oracle composition; single_impute appends exactly the chosen completion to the named side; accepted "
+    "RuleConstraint entries carry no banned dihalogen on the product side. Ranking agreement is reported as model "
+    "drift only.",
+    "5/C08", "")
+
 PENDING_REASON = "check not built yet in this round (planned, see DESIGN.md section 5); not claimed until it passes on the unchanged tree"
 
 
